@@ -2420,7 +2420,15 @@ impl<'store> PartialEq for ResultTextSelection<'store> {
 
 impl<'store> PartialOrd for ResultTextSelection<'store> {
     fn partial_cmp(&self, other: &Self) -> Option<Ordering> {
-        self.inner().partial_cmp(other.inner())
+        //text selections in different resources are never equal (see PartialEq): order by resource first, then by offset
+        match self
+            .resource()
+            .handle()
+            .cmp(&other.resource().handle())
+        {
+            Ordering::Equal => self.inner().partial_cmp(other.inner()),
+            ordering => Some(ordering),
+        }
     }
 }
 
